@@ -146,8 +146,11 @@ def m_parse_expr(s):
     if rest is None: return None
     return s[:len(s) - len(rest)], rest
 
-def scan_items(s):
-    """-> ('ok', [('t', text) | ('e', expr)]) | ('err', cls)"""
+def scan_items(s, check_compile=False):
+    """-> ('ok', [('t', text) | ('e', expr)]) | ('err', cls).
+    check_compile=True follows the code in the ORDER of its errors: adapt_sql / parse_raw_sql call compile(expr) as soon as an expression is cut,
+    so the SyntaxError of an earlier expression pre-empts a ValueError / IndexError further right (the Coq model has no compile():
+    it is compared with check_compile=False)."""
     out = []
     while True:
         i = s.find('$')
@@ -161,15 +164,16 @@ def scan_items(s):
         if pe is None: return ('err', E_VALUE)
         e, rest = pe
         if e.endswith(';'): e = e[:-1]
+        if check_compile and not compiles(e): return ('err', 'syntax')
         out += [('t', t), ('e', e)]; s = rest
 
 def placeholder(style, n):
     return {'qmark': '?', 'format': '%s', 'numeric': ':%d' % n, 'named': ':p%d' % n, 'pyformat': '%%(p%d)s' % n}[style]
 
-def m_adapt(style, sql):
+def m_adapt(style, sql, check_compile=False):
     """-> ('ok', text, src) with src = None | ('tuple', [exprs]) | ('dict', [(n, expr)])   or ('err', cls)"""
     rw = sql.replace('%', '%%') if style in ('format', 'pyformat') else sql
-    r = scan_items(rw)
+    r = scan_items(rw, check_compile)
     if r[0] == 'err': return r
     items = r[1]
     exprs = [x[1] for x in items if x[0] == 'e']
@@ -178,8 +182,9 @@ def m_adapt(style, sql):
     for k, v in items:
         if k == 't': text += v
         else: n += 1; text += placeholder(style, n)
-    if style in ('qmark', 'format', 'numeric'): return ('ok', text, ('tuple', exprs))
-    return ('ok', text, ('dict', [(i + 1, e) for i, e in enumerate(exprs)]))
+    res = ('ok', text, ('tuple', exprs)) if style in ('qmark', 'format', 'numeric') else ('ok', text, ('dict', [(i + 1, e) for i, e in enumerate(exprs)]))
+    if check_compile and not compiles(render_argsrc(res[2])[1]): return ('err', 'syntax')       # compile(source) of the combined tuple / dict display
+    return res
 
 def m_run_history(hist):
     """the cache as /repo has it (bfddd57): looked up and stored under (sql, style) as the caller wrote the statement"""
@@ -187,8 +192,7 @@ def m_run_history(hist):
     for sql, style in hist:
         hit = cache.get((sql, style))
         if hit is not None: out.append(hit); continue
-        r = m_adapt(style, sql)
-        if r[0] == 'ok' and r[2] is not None and not all_compile(r): r = ('err', 'syntax')     # compile() raised: nothing is stored
+        r = m_adapt(style, sql, check_compile=True)                     # compile() raised: nothing is stored
         if r[0] == 'ok': cache[(sql, style)] = r
         out.append(r)
     return out
@@ -259,17 +263,7 @@ def render_argsrc(a):
     return a
 
 def same_outcome(model, impl):
-    """model outcome (m_adapt shape) against the real outcome; a SyntaxError of the real function must be explained by an expression that does not compile"""
-    if impl[0] == 'err' and impl[1] == 'syntax':
-        if model[0] == 'err' and model[1] == 'syntax': return True
-        if model[0] != 'ok' or model[2] is None: return False
-        exprs = model[2][1] if model[2][0] == 'tuple' else [e for _, e in model[2][1]]
-        for e in exprs:
-            try: compile(e, '<?>', 'eval')
-            except SyntaxError: return True
-        try: compile(render_argsrc(model[2])[1], '<?>', 'eval')
-        except SyntaxError: return True
-        return False
+    """compile-aware mirror outcome (m_adapt(.., check_compile=True) shape) against the real outcome: same error class, or same text and argument source"""
     if model[0] == 'err' or impl[0] == 'err': return tuple(model[:2]) == tuple(impl[:2])
     return model[1] == impl[1] and render_argsrc(model[2]) == impl[2]
 
@@ -401,7 +395,7 @@ def correspondence(ctx):
     for _ in range(ctx.scale(90, 1500)): stmts.append(render(gen_segments(rng, True)))
     for _ in range(ctx.scale(90, 1500)): stmts.append(rand_text(rng, rng.randint(1, 14)))
     stmts += ['', '$', 'a$', '$$', '$$$', '$$$$', '$x', '$x;', '$x ;', '$x ; ;', '$x.', '$x .y', '$x. y', '$x . 1', '$(', '$(x', '$x(', '$x[1)]', "$f(')')", "$f(''')''')", "$f('''", '$1', '$ x',
-              '$é', '$xé', '$x .y', '$x %', '% $x', 'a % b', 'a %% b', '$x$y', '$x$$y', '$$x', '$x (1)', '$x\n(1)', "$d['\\\n']", '$x;;', "$f('a' 'b')", '$f((()))', '$f([)]', '$f([(])']
+              '$é', '$xé', '$x .y', '$x %', '% $x', 'a % b', 'a %% b', '$x$y', '$x$$y', '$$x', '$x (1)', '$x\n(1)', "$d['\\\n']", '$x;;', "$f('a' 'b')", '$f((()))', '$f([)]', '$f([(])', ' $x[%%(]x .z$. .z%', '$(1 2)$', '$x[ $', '$(a b);$ y']
     seen = set(); stmts = [s for s in stmts if not (s in seen or seen.add(s))]
 
     # (1) adapt_sql, cold cache: real vs mirror vs Coq
@@ -410,9 +404,9 @@ def correspondence(ctx):
         for style in STYLES:
             R.clear()
             impl = R.adapt(sql, style)
-            model = m_adapt(style, sql)
-            if not same_outcome(model, impl):
-                disagree('adapt_sql: model (mirror) and implementation differ', [style, sql], repr(impl), repr(model)); continue
+            if not same_outcome(m_adapt(style, sql, check_compile=True), impl):
+                disagree('adapt_sql: model (mirror) and implementation differ', [style, sql], repr(impl), repr(m_adapt(style, sql, check_compile=True))); continue
+            model = m_adapt(style, sql)              # the Coq model has no compile(): compared with the mirror without the compile checks
             add('adapt', 'res_eqb adapted_eqb (adapt %s %s %s %s) %s' % (w, sp, CSTYLE[style], cstr(sql), c_outcome(model)), [style, sql], repr(impl), '$' in sql)
         if len(samples) < 3 and sql.count('$') >= 2: samples.append({'sql': sql, 'pyformat': repr(m_adapt('pyformat', sql))})
 
@@ -446,12 +440,9 @@ def correspondence(ctx):
     for sql in stmts[::2]:
         R.clear()
         impl = R.parse_raw(sql)
+        rc = scan_items(sql, check_compile=True) if sql else ('err', E_TYPE)
+        if impl != rc: disagree('parse_raw_sql: model (mirror) and implementation differ', sql, repr(impl), repr(rc)); continue
         r = scan_items(sql) if sql else ('err', E_TYPE)
-        if impl[0] == 'err' and impl[1] == 'syntax':
-            ok = r[0] == 'ok' and any(k == 'e' and not compiles(v) for k, v in r[1])
-            if not ok: disagree('parse_raw_sql raised SyntaxError although every expression of the model compiles', sql, repr(impl), repr(r))
-            continue
-        if impl != r: disagree('parse_raw_sql: model (mirror) and implementation differ', sql, repr(impl), repr(r)); continue
         w, sp = nonascii_tables(sql)
         add('parse_raw', 'res_eqb (list_eqb item_eqb) (parse_raw %s %s %s) %s' % (w, sp, cstr(sql), c_items(r)), sql, repr(impl), '$' in sql)
 
